@@ -397,8 +397,17 @@ func c09R3(c *Ctx) {
 		}
 		// (b) danglings: the result of the delete step, or of graph.Remove where that step is inlined
 		var dangSources []ssa.Value
+		// … when the delete step hands graph.Remove's result on unfiltered (otherwise it filters itself and is judged as a host)
+		rawResult := false
+		for _, a := range RetAtoms(h.deleteOne, 0) {
+			for _, rc := range CallsTo(h.deleteOne, c09nRemove) {
+				if v := rc.Value(); v != nil && (Aliases(v)[a.Val] || c09Resolved(a.Val) == v) {
+					rawResult = true
+				}
+			}
+		}
 		for _, dc := range delCalls {
-			if dang := ResultOf(dc, 0); dang != nil {
+			if dang := ResultOf(dc, 0); dang != nil && rawResult {
 				dangSources = append(dangSources, dang)
 			}
 		}
@@ -2104,7 +2113,7 @@ func c09R4GcIndex(c *Ctx, R4 string, h *c09Helpers) {
 		if c09IsYieldBody(f) {
 			continue // reached through the loop statement of its parent
 		}
-		for _, p := range c08Passes(f, maps) {
+		for _, p := range c08Passes(c.P, f, maps) {
 			p := p
 			k, obj, body := p.k, p.obj, p.fn
 			inObj := func(v ssa.Value) bool {
@@ -2133,15 +2142,15 @@ func c09R4GcIndex(c *Ctx, R4 string, h *c09Helpers) {
 			}
 			tagRef := inBody(c09EffectSites(body, c09Identity, func(call ssa.CallInstruction, bind c09Bind) bool {
 				a := call.Common().Args
-				return CalleeName(call) == c09nTag && len(a) == 4 && k != nil && isNew(bind(a[0]), newRes) && bind(a[3]) != nil && c09SameKey(bind(a[3]), k) && inObj(bind(c09CellOrValue(a[2])))
+				return CalleeName(call) == c09nTag && len(a) == 4 && k != nil && (isNew(bind(a[0]), newRes) || isNew(a[0], newRes)) && bind(a[3]) != nil && c09SameKey(bind(a[3]), k) && inObj(bind(c09CellOrValue(a[2])))
 			}, 2))
 			tagDg := inBody(c09EffectSites(body, c09Identity, func(call ssa.CallInstruction, bind c09Bind) bool {
 				a := call.Common().Args
-				return CalleeName(call) == c09nTag && len(a) == 4 && isNew(bind(a[0]), newRes) && digestStringOfObj(a[3], bind)
+				return CalleeName(call) == c09nTag && len(a) == 4 && (isNew(bind(a[0]), newRes) || isNew(a[0], newRes)) && digestStringOfObj(a[3], bind)
 			}, 2))
 			idx := inBody(c09EffectSites(body, c09Identity, func(call ssa.CallInstruction, bind c09Bind) bool {
 				a := call.Common().Args
-				return CalleeName(call) == c09nIndexAll && len(a) == 4 && isNew(bind(a[0]), newGraph)
+				return CalleeName(call) == c09nIndexAll && len(a) == 4 && (isNew(bind(a[0]), newGraph) || isNew(a[0], newGraph))
 			}, 2))
 			lpos := p.it.Stmt.Pos()
 			if p.l != nil {
@@ -2179,7 +2188,9 @@ func c09R4GcIndex(c *Ctx, R4 string, h *c09Helpers) {
 						return 0, false
 					}
 					gb := c09HelperBind(call, g, c09Identity)
-					inner, _, _ := CallTests(g, c09nExists, func(x *ssa.Call) bool { return isNew(gb(x.Call.Args[0]), newGraph) })
+					inner, _, _ := CallTests(g, c09nExists, func(x *ssa.Call) bool {
+						return isNew(gb(x.Call.Args[0]), newGraph) || isNew(x.Call.Args[0], newGraph)
+					})
 					for ri := 0; ri < g.Signature.Results().Len(); ri++ {
 						if types.Identical(g.Signature.Results().At(ri).Type(), types.Typ[types.Bool]) && len(inner) > 0 && c09TrueImplies(g, ri, inner, nil) {
 							return ri, true
